@@ -337,8 +337,10 @@ func (sp *SAMLServiceProvider) SigningContext() *dsig.SigningContext {
 	sp.signingContextMu.Lock()
 	defer sp.signingContextMu.Unlock()
 
+	// Same precedence as getSigningCert: an explicit signing key (setter, then
+	// deprecated field) wins over the encryption key (setter, then deprecated field).
 	signing := sp.spSigningKeyStoreOverride
-	if signing == nil {
+	if signing == nil && sp.SPSigningKeyStore == nil {
 		signing = sp.spKeyStoreOverride
 	}
 	var err error
